@@ -1,5 +1,5 @@
 import Tx3Proofs.C09
-#print axioms Tx3.PData.beNat_natToBytes
+#print axioms Tx3.Cbor.beNat_natToBytes
 #print axioms Tx3.PData.C09_read_write
 #print axioms Tx3.PData.C09_constr_tag
 #print axioms Tx3.C09_struct
